@@ -163,7 +163,7 @@ impl Parser for Markdown {
 
         let mut traversed_bytes = 0;
         let mut traversed_chars = 0;
-        // End (in bytes) of the last text event that was turned into tokens.
+        // End (in bytes) of the last inline content event that was turned into tokens.
         let mut tokenized_until = 0;
 
         let mut stack = Vec::new();
@@ -174,6 +174,19 @@ impl Parser for Markdown {
             if range.start > traversed_bytes {
                 traversed_chars += source_str[traversed_bytes..range.start].chars().count();
                 traversed_bytes = range.start;
+            }
+
+            // For some malformed links (e.g. `[[target|]]text`) pulldown-cmark emits everything that
+            // follows in the paragraph a second time: text, but also line breaks, inline code and
+            // inline HTML. It has been tokenized already.
+            if !matches!(
+                event,
+                pulldown_cmark::Event::Start(_) | pulldown_cmark::Event::End(_)
+            ) {
+                if range.start < tokenized_until {
+                    continue;
+                }
+                tokenized_until = range.end;
             }
 
             match event {
@@ -236,13 +249,6 @@ impl Parser for Markdown {
                     });
                 }
                 pulldown_cmark::Event::Text(text) => {
-                    // For some malformed links (e.g. `[[target|]]text`) pulldown-cmark emits
-                    // the text that follows a second time. It has been tokenized already.
-                    if range.start < tokenized_until {
-                        continue;
-                    }
-                    tokenized_until = range.end;
-
                     let chunk_len = text.chars().count();
 
                     if let Some(tag) = stack.last() {
